@@ -1,15 +1,23 @@
 #!/bin/sh
-# usage: seed_matrix.sh [dir-prefix ...]  -- run every seeded/<id>-*/patch.diff against the check of its property; append to .work/seed_matrix.log
+# usage: seed_matrix.sh [-j N] [dir-prefix ...]  -- run every seeded/<id>-*/patch.diff against the check of its property (quick tier,
+# scratch worktree of /repo HEAD, see try_seed.sh); one result file per patch in .work/matrix/, then tools/mkresults.py writes
+# seeded/RESULTS.md.  N patches side by side (default 3).
 cd /verif
+J=3
+if [ "$1" = "-j" ]; then J=$2; shift 2; fi
+mkdir -p .work/matrix
+list=""
 for d in seeded/*/; do
-  n=$(basename "$d"); id=${n%%-*}
+  n=$(basename "$d")
   if [ $# -gt 0 ]; then ok=0; for p in "$@"; do case "$n" in $p*) ok=1;; esac; done; [ $ok = 1 ] || continue; fi
   [ -f "$d/patch.diff" ] || continue
-  [ -f "harness/drivers/$(echo $id | tr A-Z a-z).py" ] || { echo "$n no-check" >> .work/seed_matrix.log; continue; }
-  out=$(tools/try_seed.sh "/verif/$d/patch.diff" $id 2>&1)
-  rc=$(echo "$out" | grep -o "exit=[0-9]*" | tail -1)
-  sig=$(echo "$out" | grep "signature:" | head -1 | sed 's/ *signature: //')
-  case "$out" in *"does not apply"*) rc="no-apply";; esac
-  echo "$n $rc $sig" >> .work/seed_matrix.log
+  list="$list $n"
 done
-echo DONE >> .work/seed_matrix.log
+for n in $list; do echo $n; done | xargs -P $J -I{} sh -c '
+  n={}; id=${n%%-*}
+  out=$(tools/try_seed.sh "/verif/seeded/$n/patch.diff" $id 2>&1)
+  rc=$(echo "$out" | grep -o "exit=[0-9]*" | tail -1)
+  case "$out" in *"does not apply"*) rc="no-apply";; esac
+  { echo "$n $rc"; echo "$out" | grep "signature:" | sed "s/ *signature: //" | head -6; } > .work/matrix/$n.txt
+'
+tools/mkresults.py
